@@ -63,6 +63,15 @@ CLAIMED = {
         design="DESIGN.md section 2, C08",
         technique="path-forking symbolic execution with a symbolic tolerance; identity validity queries after denominator clearing (z3)",
     ),
+    "C11": dict(
+        text="Compositional: (1) the real validate_constraints is executed on a finite family of specifications (12 kinds; scalar / per-mode list / per-mode dict; pairs of kinds; "
+        "symbolic positive parameters) and must return exactly the specification's (kind, parameter) per mode and reject exactly the double constraints; (2) constrained_parafac "
+        "runs symbolically with proximal_operator replaced by a tagging stub with fresh outputs: each returned factor of a constrained non-fixed mode is term-identical to the "
+        "output of a stub call made with that mode's order and the user's keywords (so nothing un-projected can be returned, for every value of data and iterates); "
+        "(3) feasibility of the real operators' outputs is C12's KKT obligation.",
+        design="DESIGN.md section 2, C11",
+        technique="symbolic execution with a tagging proximal-operator stub; term-identity validity queries (z3)",
+    ),
     "C12": dict(
         text="Every branch of each proximal/projection operator is executed symbolically (sorts and comparisons fork the path, clips merge into If-terms) on vectors "
         "and n x 2 matrices of solver variables with a symbolic positive parameter; the returned point is checked against the KKT / nearest-point "
